@@ -1,3 +1,286 @@
-import OdakProofs.RealInst
+import OdakProofs.Lemmas.Losses
+
+/-! # C17 – losses vanish at identity, are non-negative, and do not depend on call history -/
 namespace Odak
+
+/-! ## A. signs and zeros -/
+
+/-- `torch.nn.MSELoss` is non-negative -/
+theorem C17_mse_nonneg (a b : List ℝ) : 0 ≤ mse a b := mse_nonneg a b
+
+/-- … and zero when image = target -/
+theorem C17_mse_zero_at_identity (a : List ℝ) : mse a a = 0 := mse_self a
+
+/-- `multiplane_loss` with non-negative weights is non-negative (any image, target, mask) -/
+theorem C17_multiplane_nonneg (w0 w1 w2 : ℝ) (hw : 0 ≤ w0 ∧ 0 ≤ w1 ∧ 0 ≤ w2) (img tgt mask : List ℝ) :
+    0 ≤ multiplaneLoss w0 w1 w2 img tgt mask := by
+  obtain ⟨h0, h1, h2⟩ := hw
+  unfold multiplaneLoss
+  exact add_nonneg (add_nonneg (mul_nonneg h0 (mse_nonneg _ _)) (mul_nonneg h1 (mse_nonneg _ _)))
+    (mul_nonneg h2 (mse_nonneg _ _))
+
+/-- … and zero when image = target (any weights, any mask) -/
+theorem C17_multiplane_zero_at_identity (w0 w1 w2 : ℝ) (tgt mask : List ℝ) :
+    multiplaneLoss w0 w1 w2 tgt tgt mask = 0 := by
+  unfold multiplaneLoss
+  rw [mse_self, mse_self, mse_self]
+  simp
+
+theorem C17_wrapped_nonneg (a b : List ℝ) : 0 ≤ wrappedMse a b := by
+  unfold wrappedMse
+  exact div_nonneg
+    (sumL_zipWith_nonneg _ (fun x y => add_nonneg (sq_nonneg' _) (sq_nonneg' _)) a b) (Nat.cast_nonneg _)
+
+theorem C17_wrapped_zero_at_identity (a : List ℝ) : wrappedMse a a = 0 := by
+  unfold wrappedMse
+  rw [sumL_zipWith_self _ (fun x => by simp [num_sq])]
+  exact zero_div _
+
+/-- the wrapped phase error is 2π-periodic in the image and in the ground truth: adding any integer
+    multiple of 2π to every sample of either argument leaves it unchanged -/
+theorem C17_wrapped_periodic (a b : List ℝ) (j : ℤ) :
+    wrappedMse (a.map (· + 2 * Real.pi * j)) b = wrappedMse a b ∧
+    wrappedMse a (b.map (· + 2 * Real.pi * j)) = wrappedMse a b := by
+  have hs : ∀ x : ℝ, Real.sin (x + 2 * Real.pi * j) = Real.sin x := fun x => by
+    rw [mul_comm]; exact Real.sin_add_int_mul_two_pi x j
+  have hc : ∀ x : ℝ, Real.cos (x + 2 * Real.pi * j) = Real.cos x := fun x => by
+    rw [mul_comm]; exact Real.cos_add_int_mul_two_pi x j
+  unfold wrappedMse
+  constructor
+  · rw [List.zipWith_map_left, List.length_map]
+    simp only [num_sin, num_cos, hs, hc]
+  · rw [List.zipWith_map_right]
+    simp only [num_sin, num_cos, hs, hc]
+
+/-- stronger, per-sample form: a *different* integer multiple of 2π may be added to each sample
+    (`k` supplies the multiples; it must cover the image) -/
+theorem C17_wrapped_periodic_pointwise (a b : List ℝ) (k : List ℤ) (hk : a.length ≤ k.length) :
+    wrappedMse (List.zipWith (fun x (j : ℤ) => x + 2 * Real.pi * j) a k) b = wrappedMse a b := by
+  have hs : ∀ (x : ℝ) (j : ℤ), Real.sin (x + 2 * Real.pi * j) = Real.sin x := fun x j => by
+    rw [mul_comm]; exact Real.sin_add_int_mul_two_pi x j
+  have hc : ∀ (x : ℝ) (j : ℤ), Real.cos (x + 2 * Real.pi * j) = Real.cos x := fun x j => by
+    rw [mul_comm]; exact Real.cos_add_int_mul_two_pi x j
+  unfold wrappedMse
+  rw [List.length_zipWith, Nat.min_eq_left hk]
+  congr 2
+  induction a generalizing k b with
+  | nil => simp
+  | cons x xs ih =>
+    cases k with
+    | nil => simp at hk
+    | cons j js =>
+      cases b with
+      | nil => simp
+      | cons y ys =>
+        simp only [List.zipWith_cons_cons, num_sin, num_cos, hs, hc]
+        congr 1
+        have := ih ys js (by simpa using hk)
+        simpa only [num_sin, num_cos] using this
+
+/-- `histogram_loss` (MSE of the bin counts) is non-negative and zero for equal histograms -/
+theorem C17_histogram_nonneg_zero (c d : List ℝ) : 0 ≤ histogramLoss c d ∧ histogramLoss c c = 0 :=
+  ⟨mse_nonneg c d, mse_self c⟩
+
+/-- total variation is non-negative (any grid, even ragged) -/
+theorem C17_tv_nonneg (rows : List (List ℝ)) : 0 ≤ tvLoss rows := by
+  unfold tvLoss
+  refine div_nonneg (add_nonneg (sumL_nonneg ?_) (sumL_zipWith_nonneg _ ?_ _ _)) (Nat.cast_nonneg _)
+  · intro z hz
+    obtain ⟨r, _, rfl⟩ := List.mem_map.1 hz
+    exact sumL_zipWith_nonneg _ (fun x y => sq_nonneg' _) _ _
+  · intro r s
+    exact sumL_zipWith_nonneg _ (fun x y => sq_nonneg' _) _ _
+
+/-- total variation of a uniform image is zero -/
+theorem C17_tv_zero_of_uniform (r c : Nat) (v : ℝ) : tvLoss (List.replicate r (List.replicate c v)) = 0 := by
+  have hrow : ∀ p q : Nat,
+      sumL (List.zipWith (fun a b : ℝ => Num.sq (b - a)) (List.replicate p v) (List.replicate q v)) = 0 := by
+    intro p q
+    apply sumL_eq_zero
+    intro z hz
+    obtain ⟨x, hx, y, hy, rfl⟩ := exists_of_mem_zipWith _ _ _ z hz
+    rw [List.eq_of_mem_replicate hx, List.eq_of_mem_replicate hy]; simp [num_sq]
+  unfold tvLoss
+  have h1 : sumL ((List.replicate r (List.replicate c v)).map fun r =>
+      sumL (List.zipWith (fun a b : ℝ => Num.sq (b - a)) r r.tail)) = 0 := by
+    apply sumL_eq_zero
+    intro z hz
+    obtain ⟨row, hrow', rfl⟩ := List.mem_map.1 hz
+    rw [List.eq_of_mem_replicate hrow', List.tail_replicate]; exact hrow _ _
+  have h2 : sumL (List.zipWith (fun r s => sumL (List.zipWith (fun a b : ℝ => Num.sq (b - a)) r s))
+      (List.replicate r (List.replicate c v)) (List.replicate r (List.replicate c v)).tail) = 0 := by
+    apply sumL_eq_zero
+    intro z hz
+    obtain ⟨x, hx, y, hy, rfl⟩ := exists_of_mem_zipWith _ _ _ z hz
+    rw [List.tail_replicate] at hy
+    rw [List.eq_of_mem_replicate hx, List.eq_of_mem_replicate hy]; exact hrow _ _
+  simp only [h1, h2]
+  simp
+
+/-- converse, for non-empty rectangular grids: total variation vanishes exactly for uniform images -/
+theorem C17_tv_zero_iff_uniform (r c : Nat) (hr : 0 < r) (hc : 0 < c) (rows : List (List ℝ))
+    (hlen : rows.length = r) (hrect : ∀ row ∈ rows, row.length = c) :
+    tvLoss rows = 0 ↔ ∃ v, rows = List.replicate r (List.replicate c v) := by
+  constructor
+  · intro h
+    -- the first row is a row
+    have hhead : rows.headD [] ∈ rows := by
+      cases rows with
+      | nil => simp at hlen; omega
+      | cons x xs => simp
+    have hden : ((rows.length * (rows.headD []).length : Nat) : ℝ) ≠ 0 := by
+      rw [hlen, hrect _ hhead]
+      exact_mod_cast (Nat.mul_pos hr hc).ne'
+    unfold tvLoss at h
+    simp only [num_ofNat] at h
+    rcases div_eq_zero_iff.1 h with h | h
+    swap
+    · exact absurd h hden
+    have hdx : 0 ≤ sumL (rows.map fun r => sumL (List.zipWith (fun a b : ℝ => Num.sq (b - a)) r r.tail)) := by
+      apply sumL_nonneg
+      intro z hz
+      obtain ⟨row, _, rfl⟩ := List.mem_map.1 hz
+      exact sumL_zipWith_nonneg _ (fun x y => sq_nonneg' _) _ _
+    have hGn : ∀ r s : List ℝ, 0 ≤ sumL (List.zipWith (fun a b : ℝ => Num.sq (b - a)) r s) :=
+      fun r s => sumL_zipWith_nonneg _ (fun x y => sq_nonneg' _) _ _
+    have hdy : 0 ≤ sumL (List.zipWith (fun r s => sumL (List.zipWith (fun a b : ℝ => Num.sq (b - a)) r s))
+        rows rows.tail) := sumL_zipWith_nonneg _ hGn _ _
+    have hdx0 : sumL (rows.map fun r => sumL (List.zipWith (fun a b : ℝ => Num.sq (b - a)) r r.tail)) = 0 := by
+      linarith
+    have hdy0 : sumL (List.zipWith (fun r s => sumL (List.zipWith (fun a b : ℝ => Num.sq (b - a)) r s))
+        rows rows.tail) = 0 := by linarith
+    -- all rows are equal to the first one
+    have hrows := eq_replicate_of_sumL_adjacent_zero
+      (fun r s : List ℝ => sumL (List.zipWith (fun a b : ℝ => Num.sq (b - a)) r s)) hGn [] rows
+      (fun x hx y hy hxy => eq_of_sumL_sqdiff_zero x y ((hrect x hx).trans (hrect y hy).symm) hxy) hdy0
+    -- the first row is constant
+    have hrow0 : sumL (List.zipWith (fun a b : ℝ => Num.sq (b - a)) (rows.headD []) (rows.headD []).tail) = 0 :=
+      eq_zero_of_sumL_eq_zero
+        (fun z hz => by
+          obtain ⟨row, _, rfl⟩ := List.mem_map.1 hz
+          exact hGn _ _) hdx0 _
+        (List.mem_map.2 ⟨rows.headD [], hhead, rfl⟩)
+    have hconst := eq_replicate_of_sumL_adjacent_zero (fun a b : ℝ => Num.sq (b - a))
+      (fun x y => sq_nonneg' _) 0 (rows.headD [])
+      (fun x _ y _ hxy => by have := sq_eq_zero'.1 hxy; linarith) hrow0
+    refine ⟨(rows.headD []).headD 0, ?_⟩
+    rw [hrect _ hhead] at hconst
+    rw [hlen] at hrows
+    rw [← hconst]
+    exact hrows
+  · rintro ⟨v, rfl⟩
+    exact C17_tv_zero_of_uniform r c v
+
+/-- speckle contrast of a uniform window (mean `v`, mean square `v²`) is zero.  (Over ℝ this needs no
+    `v ≠ 0`; the IEEE evaluation needs it, `0/0` being NaN there.) -/
+theorem C17_speckle_zero_of_uniform (v : ℝ) : speckleWindow v (v * v) = 0 := by
+  simp [speckleWindow, num_sq]
+
+/-- speckle contrast of a window with non-negative mean is non-negative (any mean square) -/
+theorem C17_speckle_nonneg (mu m2 : ℝ) (hmu : 0 ≤ mu) : 0 ≤ speckleWindow mu m2 := by
+  unfold speckleWindow
+  exact div_nonneg (Real.sqrt_nonneg _) hmu
+
+/-- PSNR grows strictly as the error shrinks -/
+theorem C17_psnr_strictly_decreasing (peak m1 m2 : ℝ) (hp : 0 < peak) (h1 : 0 < m1) (h12 : m1 < m2) :
+    psnr peak m2 < psnr peak m1 := by
+  have hs1 : 0 < Real.sqrt m1 := Real.sqrt_pos.2 h1
+  have hs : Real.sqrt m1 < Real.sqrt m2 := Real.sqrt_lt_sqrt h1.le h12
+  have hd : peak / Real.sqrt m2 < peak / Real.sqrt m1 := div_lt_div_of_pos_left hp hs1 hs
+  have hl : Real.log (peak / Real.sqrt m2) < Real.log (peak / Real.sqrt m1) :=
+    Real.log_lt_log (div_pos hp (hs1.trans hs)) hd
+  have h10 : 0 < Real.log 10 := Real.log_pos (by norm_num)
+  unfold psnr
+  simp only [num_ofNat, num_log, num_sqrt]
+  have := div_lt_div_of_pos_right hl h10
+  push_cast
+  linarith
+
+/-! ## B. history independence of the lazily refreshed caches -/
+
+/-- **cache transparency**, general form: from ANY cache state that satisfies the invariant (stored value =
+    `f` of stored key), for ANY sequence of keys (changing gaze, target or image size between calls, any
+    order, any length) every value used equals what a fresh object computes, and the invariant persists -/
+theorem C17_cache_transparent_from {K V : Type} [DecidableEq K] (f : K → V) (s : Option (K × V))
+    (hs : ∀ k v, s = some (k, v) → v = f k) (ks : List K) :
+    (cacheRun f s ks).2 = ks.map f ∧ (∀ k v, (cacheRun f s ks).1 = some (k, v) → v = f k) := by
+  induction ks generalizing s with
+  | nil => exact ⟨rfl, hs⟩
+  | cons k rest ih =>
+    obtain ⟨h1, h2⟩ := cacheStep_spec f s hs k
+    obtain ⟨i1, i2⟩ := ih (cacheStep f s k).1 h1
+    simp only [cacheRun, List.map_cons]
+    exact ⟨by rw [i1, h2], i2⟩
+
+/-- from a new object (empty cache) -/
+theorem C17_cache_transparent {K V : Type} [DecidableEq K] (f : K → V) (ks : List K) :
+    (cacheRun f none ks).2 = ks.map f :=
+  (C17_cache_transparent_from f none (keyedInv_none f) ks).1
+
+/-- the refresh decision is exactly "nothing stored, or the key differs from the stored key" -/
+theorem C17_cache_miss_iff_key_changes {K V : Type} [DecidableEq K] (s : Option (K × V)) (k : K) :
+    cacheMiss s k = true ↔ (s = none ∨ ∃ k' v, s = some (k', v) ∧ k' ≠ k) := by
+  cases s with
+  | none => simp [cacheMiss]
+  | some p =>
+    obtain ⟨k', v⟩ := p
+    simp [cacheMiss]
+
+/-- what a step stores: a miss stores `(k, f k)`, a hit leaves the cache untouched -/
+theorem C17_cache_step_state {K V : Type} [DecidableEq K] (f : K → V) (s : Option (K × V)) (k : K) :
+    (cacheStep f s k).1 = if cacheMiss s k = true then some (k, f k) else s := by
+  cases s with
+  | none => simp [cacheMiss, cacheStep]
+  | some p =>
+    obtain ⟨k', v⟩ := p
+    by_cases h : k' = k <;> simp [cacheMiss, cacheStep, h]
+
+/-- every name the cached computation reads is compared by the cache guard [regenerated from the
+    Python source]: each shipped cache is an instance of the keyed cache above with `k` = the tuple of
+    those inputs -/
+theorem C17_cache_keys_cover_inputs :
+    (∀ x ∈ Gen.metamericLossCacheInputs, x ∈ Gen.metamericLossCacheKey) ∧
+    (∀ x ∈ Gen.metamerMseCacheInputs, x ∈ Gen.metamerMseCacheKey) ∧
+    (∀ x ∈ Gen.radialBlurCacheInputs, x ∈ Gen.radialBlurCacheKey) := by
+  decide
+
+/-- why the key matters (the pre-fix behaviour): a cache keyed on the target only returns, for the second
+    of two calls with the same target and different gazes, the value of the FIRST gaze – which differs
+    from what a fresh object returns -/
+theorem C17_target_only_key_is_history_dependent {T G V : Type} [DecidableEq T] (f : T × G → V) (t : T)
+    (g₁ g₂ : G) (h : f (t, g₁) ≠ f (t, g₂)) :
+    (staleRun f none [(t, g₁), (t, g₂)]).2 = [f (t, g₁), f (t, g₁)] ∧
+    (staleRun f none [(t, g₁), (t, g₂)]).2 ≠ [(t, g₁), (t, g₂)].map f := by
+  have e : (staleRun f none [(t, g₁), (t, g₂)]).2 = [f (t, g₁), f (t, g₁)] := by
+    simp [staleRun, staleStep]
+  refine ⟨e, ?_⟩
+  rw [e]
+  intro h'
+  simp only [List.map_cons, List.map_nil, List.cons.injEq, and_true, true_and] at h'
+  exact h h'
+
+/-! ## non-vacuity -/
+
+example : mse [1, 2] [1, 4] = (2 : ℝ) := by
+  simp [mse, sumL, num_sq]; norm_num
+
+example : cacheRun (fun x : Nat => x * 10) none [1, 1, 2, 1] = (some (1, 10), [10, 10, 20, 10]) ∧
+    cacheMisses (fun x : Nat => x * 10) none [1, 1, 2, 1] = [true, false, true, true] := by
+  decide
+
+/-- the hypothesis of the refutation is satisfiable and the stale cache really returns a wrong value -/
+example : (staleRun (fun p : Nat × Nat => p.1 + p.2) none [(0, 1), (0, 2)]).2 = [1, 1] ∧
+    [(0, 1), (0, 2)].map (fun p : Nat × Nat => p.1 + p.2) = [1, 2] := by
+  decide
+
+example : tvLoss [[1, 2], [1, 2]] = (1 / 2 : ℝ) := by
+  simp [tvLoss, sumL, num_sq]; norm_num
+
+example : psnr 1 (1 / 100) = (20 : ℝ) := by
+  have h : Real.sqrt (1 / 100) = 1 / 10 := by
+    rw [show (1 / 100 : ℝ) = (1 / 10) ^ 2 by norm_num]; exact Real.sqrt_sq (by norm_num)
+  have h10 : Real.log 10 ≠ 0 := (Real.log_pos (by norm_num)).ne'
+  simp only [psnr, num_ofNat, num_log, num_sqrt, h]
+  norm_num
+
 end Odak
